@@ -1,4 +1,439 @@
-From Coq Require Import QArith List Bool ZArith Arith Lia Lqa.
+(* C14 lemmas: each transformer's documented function, stated independently of the loop /
+   slicing structure of the model, for ALL panels and parameters. *)
+From Coq Require Import QArith Qround List Bool ZArith Arith Lia Lqa.
 Require Import SkV.Lib.Base SkV.C14.Model SkV.C14.PaaProof.
 Import ListNotations.
 Open Scope Q_scope.
+
+(* ---------- generic list facts ---------- *)
+
+Lemma nth_firstn_lt {A} (d : A) : forall k l j, (j < k)%nat -> nth j (firstn k l) d = nth j l d.
+Proof.
+  induction k as [|k IH]; intros l j H; [lia|]. destruct l as [|x l]; [destruct j; reflexivity|].
+  destruct j as [|j]; cbn; [reflexivity|]. apply IH. lia.
+Qed.
+Lemma nth_skipn_add {A} (d : A) : forall a l j, nth j (skipn a l) d = nth (a + j) l d.
+Proof.
+  induction a as [|a IH]; intros l j; [reflexivity|]. destruct l as [|x l]; cbn.
+  - destruct j; reflexivity.
+  - apply IH.
+Qed.
+Lemma slice_length {A} (a b : nat) (s : list A) :
+  (b <= length s)%nat -> length (slice a b s) = (b - a)%nat.
+Proof. intro H. unfold slice. rewrite firstn_length, skipn_length. lia. Qed.
+Lemma slice_nth {A} (d : A) (a b : nat) (s : list A) j :
+  (j < b - a)%nat -> nth j (slice a b s) d = nth (a + j) s d.
+Proof. intro H. unfold slice. rewrite nth_firstn_lt by exact H. apply nth_skipn_add. Qed.
+Lemma nth_repeat_lt {A} (d x : A) : forall k j, (j < k)%nat -> nth j (repeat x k) d = x.
+Proof. induction k as [|k IH]; intros j H; [lia|]. destruct j; cbn; [reflexivity|]. apply IH. lia. Qed.
+Lemma last_nth {A} (d : A) : forall l, l <> [] -> last l d = nth (length l - 1) l d.
+Proof.
+  induction l as [|x l IH]; [congruence|]. intros _. destruct l as [|y l]; [reflexivity|].
+  change (last (x :: y :: l) d) with (last (y :: l) d). rewrite IH by congruence.
+  cbn [length]. replace (S (S (length l)) - 1)%nat with (S (S (length l) - 1)) by lia. reflexivity.
+Qed.
+Lemma map_seq_nth {A} (f : nat -> A) (d : A) n i :
+  (i < n)%nat -> nth i (map f (seq 0 n)) d = f i.
+Proof.
+  intro H. rewrite nth_indep with (d' := f 0%nat) by (rewrite map_length, seq_length; exact H).
+  rewrite map_nth. rewrite seq_nth by exact H. reflexivity.
+Qed.
+
+(* cell-wise relation between an input panel and an output panel: same instances in the same
+   order, same columns in the same order *)
+Definition cellwise (R : series -> series -> Prop) (p out : panel) : Prop :=
+  Forall2 (Forall2 R) p out.
+
+Lemma Forall2_map_in {A B} (R : A -> B -> Prop) (f : A -> B) : forall l,
+  (forall x, In x l -> R x (f x)) -> Forall2 R l (map f l).
+Proof.
+  induction l as [|x l IH]; intro H; cbn; constructor.
+  - apply H. left. reflexivity.
+  - apply IH. intros y Hy. apply H. right. exact Hy.
+Qed.
+Lemma cellwise_map (R : series -> series -> Prop) f p :
+  (forall i s, In i p -> In s i -> R s (f s)) -> cellwise R p (map_cells f p).
+Proof.
+  intro H. unfold cellwise, map_cells. apply Forall2_map_in. intros i Hi.
+  apply Forall2_map_in. intros s Hs. eapply H; eassumption.
+Qed.
+
+Lemma in_cell_lengths p i s : In i p -> In s i -> In (length s) (cell_lengths p).
+Proof.
+  intros Hi Hs. unfold cell_lengths. apply in_concat. exists (map (@length Q) i). split.
+  - apply in_map. exact Hi.
+  - apply in_map. exact Hs.
+Qed.
+Lemma fold_max_ge : forall l x, In x l -> (x <= fold_right Nat.max 0 l)%nat.
+Proof.
+  induction l as [|a l IH]; intros x H; [destruct H|]. destruct H as [<-|H]; cbn; [lia|].
+  specialize (IH x H). lia.
+Qed.
+Lemma fold_max_in : forall l, l <> [] -> In (fold_right Nat.max 0%nat l) l.
+Proof.
+  induction l as [|a l IH]; [congruence|]. intros _. cbn [fold_right].
+  destruct l as [|b l]; [left; cbn; lia|].
+  destruct (Nat.max_spec a (fold_right Nat.max 0%nat (b :: l))) as [[_ E]|[_ E]]; rewrite E.
+  - right. apply IH. congruence.
+  - left. reflexivity.
+Qed.
+Lemma fold_min_le : forall l a x, In x (a :: l) -> (fold_right Nat.min a l <= x)%nat.
+Proof.
+  induction l as [|b l IH]; intros a x H; cbn.
+  - destruct H as [<-|[]]. lia.
+  - destruct H as [<-|[<-|H]].
+    + specialize (IH a a (or_introl eq_refl)). lia.
+    + lia.
+    + specialize (IH a x (or_intror H)). lia.
+Qed.
+Lemma fold_min_in : forall l a, In (fold_right Nat.min a l) (a :: l).
+Proof.
+  induction l as [|b l IH]; intro a; cbn [fold_right]; [left; reflexivity|].
+  destruct (Nat.min_spec b (fold_right Nat.min a l)) as [[_ E]|[_ E]]; rewrite E.
+  - right. left. reflexivity.
+  - destruct (IH a) as [H|H]; [left; exact H|right; right; exact H].
+Qed.
+Lemma max_len_ge p i s : In i p -> In s i -> (length s <= max_len p)%nat.
+Proof. intros. apply fold_max_ge. eapply in_cell_lengths; eassumption. Qed.
+Lemma min_len_le p i s : In i p -> In s i -> (min_len p <= length s)%nat.
+Proof.
+  intros Hi Hs. pose proof (in_cell_lengths p i s Hi Hs) as H. unfold min_len.
+  destruct (cell_lengths p) as [|a l]; [destruct H|]. apply fold_min_le. exact H.
+Qed.
+Lemma in_cell_lengths_inv p n : In n (cell_lengths p) -> exists i s, In i p /\ In s i /\ length s = n.
+Proof.
+  unfold cell_lengths. intro H. apply in_concat in H. destruct H as (l & Hl & Hn).
+  apply in_map_iff in Hl. destruct Hl as (i & <- & Hi). apply in_map_iff in Hn.
+  destruct Hn as (s & <- & Hs). exists i, s. auto.
+Qed.
+
+(* ---------- padding ---------- *)
+
+Definition pad_cell_ok (L : nat) (fill : Q) (s o : series) : Prop :=
+  length o = L /\
+  forall j, (j < L)%nat -> nth j o 0 = if (j <? length s)%nat then nth j s 0 else fill.
+
+Lemma pad_series_ok L fill s : (length s <= L)%nat -> pad_cell_ok L fill s (pad_series L fill s).
+Proof.
+  intro H. unfold pad_cell_ok, pad_series. split.
+  - rewrite app_length, repeat_length. lia.
+  - intros j Hj. destruct (j <? length s)%nat eqn:E.
+    + apply Nat.ltb_lt in E. apply app_nth1. exact E.
+    + apply Nat.ltb_ge in E. rewrite app_nth2 by exact E. apply nth_repeat_lt. lia.
+Qed.
+
+Lemma pad_spec L fill p out : pad_apply L fill p = Ok out -> cellwise (pad_cell_ok L fill) p out.
+Proof.
+  unfold pad_apply. destruct (L <? max_len p)%nat eqn:E; [discriminate|]. intro H. injection H as <-.
+  apply Nat.ltb_ge in E. apply cellwise_map. intros i s Hi Hs. apply pad_series_ok.
+  pose proof (max_len_ge p i s Hi Hs). lia.
+Qed.
+
+Lemma pad_rejects_iff L fill p :
+  pad_apply L fill p = Err <-> exists i s, In i p /\ In s i /\ (L < length s)%nat.
+Proof.
+  unfold pad_apply. destruct (L <? max_len p)%nat eqn:E; split; intro H; try discriminate; try reflexivity.
+  - apply Nat.ltb_lt in E. assert (Hne : cell_lengths p <> []).
+    { intro Hnil. unfold max_len in E. rewrite Hnil in E. cbn in E. lia. }
+    pose proof (fold_max_in _ Hne) as Hin. apply in_cell_lengths_inv in Hin.
+    destruct Hin as (i & s & Hi & Hs & Hl). exists i, s. repeat split; try assumption.
+    unfold max_len in E. lia.
+  - exfalso. apply Nat.ltb_ge in E. destruct H as (i & s & Hi & Hs & Hl).
+    pose proof (max_len_ge p i s Hi Hs). lia.
+Qed.
+
+(* pad_length=None: the fitted length is the LONGEST series of the fitted panel *)
+Lemma pad_default_is_longest pfit :
+  (forall i s, In i pfit -> In s i -> (length s <= pad_fit None pfit)%nat) /\
+  (cell_lengths pfit <> [] -> exists i s, In i pfit /\ In s i /\ length s = pad_fit None pfit).
+Proof.
+  split.
+  - intros. cbn. eapply max_len_ge; eassumption.
+  - intro Hne. cbn. apply in_cell_lengths_inv. apply fold_max_in. exact Hne.
+Qed.
+
+(* ---------- truncation ---------- *)
+
+Definition trunc_cell_ok (lo : nat) (upper : option nat) (s o : series) : Prop :=
+  match upper with
+  | None => length o = lo /\ forall j, (j < lo)%nat -> nth j o 0 = nth j s 0
+  | Some u => length o = (u - lo)%nat /\ forall j, (j < u - lo)%nat -> nth j o 0 = nth (lo + j) s 0
+  end.
+
+Lemma truncate_spec lo upper p out :
+  trunc_apply lo upper p = Ok out -> cellwise (trunc_cell_ok lo upper) p out.
+Proof.
+  unfold trunc_apply. destruct (min_len p <? lo)%nat eqn:E; [discriminate|].
+  apply Nat.ltb_ge in E. destruct upper as [u|].
+  - destruct ((lo <? u)%nat && (min_len p <? u)%nat) eqn:E2; [discriminate|].
+    intro H. injection H as <-. apply cellwise_map. intros i s Hi Hs.
+    pose proof (min_len_le p i s Hi Hs) as Hm. unfold trunc_cell_ok.
+    apply andb_false_iff in E2. destruct E2 as [E2|E2].
+    + apply Nat.ltb_ge in E2. replace (u - lo)%nat with 0%nat by lia. split.
+      * unfold slice. replace (u - lo)%nat with 0%nat by lia. reflexivity.
+      * intros j Hj. lia.
+    + apply Nat.ltb_ge in E2. split.
+      * apply slice_length. lia.
+      * intros j Hj. apply slice_nth. exact Hj.
+  - intro H. injection H as <-. apply cellwise_map. intros i s Hi Hs.
+    pose proof (min_len_le p i s Hi Hs) as Hm. unfold trunc_cell_ok. split.
+    + rewrite slice_length by lia. lia.
+    + intros j Hj. rewrite slice_nth by lia. reflexivity.
+Qed.
+
+(* lower=None: the fitted bound is the SHORTEST series of the fitted panel *)
+Lemma trunc_default_is_shortest pfit :
+  (forall i s, In i pfit -> In s i -> (trunc_fit None pfit <= length s)%nat) /\
+  (cell_lengths pfit <> [] -> exists i s, In i pfit /\ In s i /\ length s = trunc_fit None pfit).
+Proof.
+  split.
+  - intros. cbn. eapply min_len_le; eassumption.
+  - intro Hne. cbn. apply in_cell_lengths_inv. unfold min_len.
+    destruct (cell_lengths pfit) as [|a l]; [congruence|]. apply fold_min_in.
+Qed.
+
+(* ---------- tabularisation / column concatenation: column-then-time ---------- *)
+
+Definition col_offset (i : inst) (c : nat) : nat := length (concat (firstn c i)).
+
+Lemma firstn_S_nth {A} (d : A) : forall (l : list A) c, (c < length l)%nat ->
+  firstn (S c) l = firstn c l ++ [nth c l d].
+Proof.
+  induction l as [|x l IH]; intros c H; cbn [length] in H; [lia|].
+  destruct c as [|c]; [reflexivity|].
+  change (firstn (S (S c)) (x :: l)) with (x :: firstn (S c) l).
+  rewrite (IH c) by lia. reflexivity.
+Qed.
+Lemma col_offset_eq i n : col_offset i n = length (concat (firstn n i)).
+Proof. reflexivity. Qed.
+Lemma col_offset_S i c : (c < length i)%nat ->
+  col_offset i (S c) = (col_offset i c + length (nth c i []))%nat.
+Proof.
+  intro H. rewrite !col_offset_eq. rewrite (firstn_S_nth ([] : series) i c H), concat_app, app_length.
+  cbn [concat]. rewrite app_nil_r. reflexivity.
+Qed.
+
+Lemma concat_block_nth : forall (i : inst) c t,
+  (c < length i)%nat -> (t < length (nth c i []))%nat ->
+  nth (col_offset i c + t) (concat i) 0 = nth t (nth c i []) 0.
+Proof.
+  unfold col_offset. induction i as [|s i IH]; intros c t Hc Ht; cbn in Hc; [lia|].
+  destruct c as [|c]; cbn [firstn concat nth length] in *.
+  - cbn. apply app_nth1. exact Ht.
+  - rewrite app_length. rewrite app_nth2 by lia.
+    replace (length s + length (concat (firstn c i)) + t - length s)%nat
+      with (length (concat (firstn c i)) + t)%nat by lia.
+    apply IH; [lia|exact Ht].
+Qed.
+
+Definition tab_row_ok (i : inst) (r : series) : Prop :=
+  length r = col_offset i (length i) /\
+  forall c t, (c < length i)%nat -> (t < length (nth c i []))%nat ->
+    nth (col_offset i c + t) r 0 = nth t (nth c i []) 0.
+
+Lemma tab_row_spec i : tab_row_ok i (tab_row i).
+Proof.
+  split.
+  - unfold col_offset, tab_row. rewrite firstn_all. reflexivity.
+  - intros. apply concat_block_nth; assumption.
+Qed.
+
+Lemma tabularize_spec p rows : tabularize p = Ok rows -> Forall2 tab_row_ok p rows.
+Proof.
+  unfold tabularize. destruct (rectangular p); [|discriminate]. intro H. injection H as <-.
+  apply Forall2_map_in. intros. apply tab_row_spec.
+Qed.
+Lemma col_concat_spec p out : col_concat p = Ok out ->
+  Forall2 (fun i o => exists r, o = [r] /\ tab_row_ok i r) p out.
+Proof.
+  unfold col_concat. destruct (rectangular p); [|discriminate]. intro H. injection H as <-.
+  apply Forall2_map_in. intros i _. exists (tab_row i). split; [reflexivity|apply tab_row_spec].
+Qed.
+
+(* ---------- PAA on panels ---------- *)
+
+Lemma paa_panel_spec m p out : (1 <= m <= min_len p)%nat -> paa_apply m p = Ok out ->
+  cellwise (fun s o => Forall2 Qeq o (paa_spec m s) /\ length o = m) p out.
+Proof.
+  intros Hm. unfold paa_apply.
+  destruct ((m =? 0)%nat || (first_len p <? m)%nat || negb (rectangular p)); [discriminate|].
+  intro H. injection H as <-. apply cellwise_map. intros i s Hi Hs.
+  pose proof (min_len_le p i s Hi Hs) as Hl.
+  assert (HF : Forall2 Qeq (paa_coded m s) (paa_spec m s)) by (apply paa_coded_is_frame_mean; lia).
+  split; [exact HF|]. apply Forall2_length in HF. rewrite HF. unfold paa_spec.
+  rewrite map_length, seq_length. reflexivity.
+Qed.
+
+(* when m divides n every frame is the plain mean of its block of n/m consecutive values *)
+Lemma wsum_inside a b : forall l t0, a <= Qn t0 -> Qn (t0 + length l) <= b ->
+  wsum a b t0 l == qsum l.
+Proof.
+  induction l as [|x l IH]; intros t0 Ha Hb; cbn [wsum qsum fold_right]; [reflexivity|].
+  cbn [length] in Hb. change (fold_right Qplus 0 l) with (qsum l).
+  rewrite IH.
+  - rewrite ov_inside; [lra|exact Ha|].
+    rewrite <- Qn_S. eapply Qle_trans; [|exact Hb]. apply Qn_le. lia.
+  - rewrite Qn_S. pose proof (Qn_nonneg t0). lra.
+  - replace (S t0 + length l)%nat with (t0 + S (length l))%nat by lia. exact Hb.
+Qed.
+Lemma wsum_after a b : forall l t0, b <= Qn t0 -> wsum a b t0 l == 0.
+Proof.
+  induction l as [|x l IH]; intros t0 Hb; cbn [wsum]; [reflexivity|].
+  rewrite IH by (rewrite Qn_S; lra). rewrite ov_after by exact Hb. lra.
+Qed.
+
+Lemma paa_divisible_block_mean (q m k : nat) (s : series) :
+  (1 <= q)%nat -> (1 <= m)%nat -> length s = (m * q)%nat -> (k < m)%nat ->
+  paa_frame m s k == qmean (slice (k * q) (k * q + q) s).
+Proof.
+  intros Hq Hm Hlen Hk. unfold paa_frame, step_integral, paa_len. rewrite Hlen.
+  assert (HL : Qn (m * q) / Qn m == Qn q).
+  { unfold Qn. rewrite Nat2Z.inj_mul, inject_Z_mult. field.
+    pose proof (Qn_lt 0 m Hm) as H. unfold Qn in H. cbn in H. lra. }
+  assert (Hs : s = firstn (k * q) s ++ slice (k * q) (k * q + q) s ++ skipn (k * q + q) s).
+  { unfold slice. replace (k * q + q - k * q)%nat with q by lia.
+    rewrite <- (firstn_skipn (k * q) s) at 1. f_equal.
+    rewrite <- (firstn_skipn q (skipn (k * q) s)) at 1. f_equal.
+    rewrite skipn_skipn. f_equal. lia. }
+  assert (Hkq : (k * q + q <= m * q)%nat) by nia.
+  assert (Hl1 : length (firstn (k * q) s) = (k * q)%nat) by (rewrite firstn_length; lia).
+  assert (Hl2 : length (slice (k * q) (k * q + q) s) = q) by (rewrite slice_length; lia).
+  assert (Ha : Qn k * (Qn (m * q) / Qn m) == Qn (k * q)).
+  { rewrite HL. unfold Qn. rewrite Nat2Z.inj_mul, inject_Z_mult. reflexivity. }
+  assert (Hb : (Qn k + 1) * (Qn (m * q) / Qn m) == Qn (k * q + q)).
+  { rewrite HL. rewrite Qn_plus. unfold Qn at 3. rewrite Nat2Z.inj_mul, inject_Z_mult.
+    fold (Qn k) (Qn q). ring. }
+  unfold qmean. rewrite Hl2.
+  apply Qdiv_comp; [|exact HL].
+  rewrite Hs at 1. rewrite !wsum_app. rewrite Hl1, Hl2. cbn [plus].
+  rewrite wsum_before by (rewrite Hl1; cbn [plus]; rewrite Ha; lra).
+  rewrite wsum_inside by (rewrite ?Hl2; rewrite ?Ha, ?Hb; lra).
+  rewrite wsum_after by (rewrite Hb; lra).
+  lra.
+Qed.
+
+(* ---------- interval segmentation ---------- *)
+
+Fixpoint tiles (start : nat) (bs : list (nat * nat)) (stop : nat) : Prop :=
+  match bs with
+  | [] => start = stop
+  | (a, b) :: t => a = start /\ (a <= b)%nat /\ tiles b t stop
+  end.
+
+Lemma chunks_from_tiles : forall sizes start,
+  tiles start (chunks_from start sizes) (start + list_sum sizes).
+Proof.
+  induction sizes as [|z t IH]; intro start; cbn [chunks_from tiles list_sum fold_right].
+  - lia.
+  - split; [reflexivity|]. split; [lia|].
+    replace (start + (z + list_sum t))%nat with (start + z + list_sum t)%nat by lia. apply IH.
+Qed.
+Lemma list_sum_repeat a k : list_sum (repeat a k) = (k * a)%nat.
+Proof. induction k as [|k IH]; cbn; [reflexivity|]. rewrite IH. lia. Qed.
+Lemma split_sizes_sum n k : (0 < k)%nat -> list_sum (split_sizes n k) = n.
+Proof.
+  intro Hk. unfold split_sizes. rewrite list_sum_app, !list_sum_repeat.
+  pose proof (Nat.div_mod n k ltac:(lia)) as Hd.
+  pose proof (Nat.mod_upper_bound n k ltac:(lia)) as Hr.
+  set (q := (n / k)%nat) in *. set (r := (n mod k)%nat) in *. nia.
+Qed.
+Lemma split_sizes_length n k : (0 < k)%nat -> length (split_sizes n k) = k.
+Proof.
+  intro Hk. unfold split_sizes. rewrite app_length, !repeat_length.
+  pose proof (Nat.mod_upper_bound n k ltac:(lia)). lia.
+Qed.
+Lemma chunks_from_length : forall sizes start, length (chunks_from start sizes) = length sizes.
+Proof. induction sizes; intros; cbn; [reflexivity|]. rewrite IHsizes. reflexivity. Qed.
+Lemma chunks_from_sizes : forall sizes start a b,
+  In (a, b) (chunks_from start sizes) -> In (b - a)%nat sizes.
+Proof.
+  induction sizes as [|z t IH]; intros start a b H; cbn in H; [destruct H|].
+  destruct H as [H|H].
+  - injection H as <- <-. left. lia.
+  - right. eapply IH. exact H.
+Qed.
+
+Lemma segment_tiles_data : forall bs a (s : series),
+  tiles a bs (length s) -> concat (segment bs s) = skipn a s.
+Proof.
+  induction bs as [|[a' b] t IH]; intros a s H; cbn [tiles segment map concat] in *.
+  - subst a. rewrite skipn_all. reflexivity.
+  - destruct H as (-> & Hab & Ht). cbn [fst snd]. fold (segment t s). rewrite (IH b s Ht).
+    unfold slice. replace (skipn b s) with (skipn (b - a) (skipn a s))
+      by (rewrite skipn_skipn; f_equal; lia).
+    apply firstn_skipn.
+Qed.
+
+Lemma tiles_stop_ge : forall bs a n, tiles a bs n -> (a <= n)%nat.
+Proof.
+  induction bs as [|[a' b] t IH]; intros a n H; cbn in H; [lia|].
+  destruct H as (-> & Hab & Ht). specialize (IH b n Ht). lia.
+Qed.
+
+Lemma interval_segment_spec n k (s : series) :
+  (1 <= k <= n)%nat -> length s = n ->
+  let bs := split_bounds n k in
+  length bs = k /\ tiles 0 bs n /\
+  (forall a b, In (a, b) bs -> (a < b)%nat /\ ((b - a = n / k)%nat \/ (b - a = S (n / k))%nat)) /\
+  concat (segment bs s) = s.
+Proof.
+  intros Hk Hlen bs. unfold bs, split_bounds.
+  assert (Hq : (1 <= n / k)%nat) by (apply Nat.div_le_lower_bound; lia).
+  repeat split.
+  - rewrite chunks_from_length. apply split_sizes_length. lia.
+  - pose proof (chunks_from_tiles (split_sizes n k) 0) as H.
+    rewrite split_sizes_sum in H by lia. exact H.
+  - apply chunks_from_sizes in H. unfold split_sizes in H. apply in_app_or in H.
+    destruct H as [H|H]; apply repeat_spec in H; lia.
+  - apply chunks_from_sizes in H. unfold split_sizes in H. apply in_app_or in H.
+    destruct H as [H|H]; apply repeat_spec in H; [right|left]; lia.
+  - pose proof (chunks_from_tiles (split_sizes n k) 0) as H.
+    rewrite split_sizes_sum in H by lia. cbn [plus] in H. rewrite <- Hlen in H.
+    rewrite (segment_tiles_data _ 0 s H). reflexivity.
+Qed.
+
+(* explicit / fitted intervals: every cell is exactly the half-open slice *)
+Lemma segment_spec ivs (s : series) :
+  Forall2 (fun iv o => forall j, (j < snd iv - fst iv)%nat -> (snd iv <= length s)%nat ->
+                       length o = (snd iv - fst iv)%nat /\ nth j o 0 = nth (fst iv + j) s 0)
+          ivs (segment ivs s).
+Proof.
+  unfold segment. apply Forall2_map_in. intros [a b] _ j Hj Hb. cbn [fst snd] in *. split.
+  - apply slice_length. exact Hb.
+  - apply slice_nth. exact Hj.
+Qed.
+
+(* ---------- sliding windows ---------- *)
+
+Lemma edge_pad_nth k (s : series) j : s <> [] -> (j < length s + 2 * k)%nat ->
+  nth j (edge_pad k s) 0 = nth (Nat.min (j - k) (length s - 1)) s 0.
+Proof.
+  intros Hne Hj. unfold edge_pad.
+  assert (Hlen : (0 < length s)%nat) by (destruct s; [congruence|cbn; lia]).
+  destruct (lt_dec j k) as [H1|H1].
+  - rewrite app_nth1 by (rewrite repeat_length; exact H1). rewrite nth_repeat_lt by exact H1.
+    replace (j - k)%nat with 0%nat by lia. rewrite Nat.min_0_l. destruct s; [congruence|reflexivity].
+  - rewrite app_nth2 by (rewrite repeat_length; lia). rewrite repeat_length.
+    destruct (lt_dec (j - k) (length s)) as [H2|H2].
+    + rewrite app_nth1 by exact H2. f_equal. lia.
+    + rewrite app_nth2 by lia. rewrite nth_repeat_lt by lia.
+      rewrite last_nth by exact Hne. f_equal. lia.
+Qed.
+
+Lemma sliding_segment_spec w (s : series) : (1 <= w)%nat -> s <> [] ->
+  length (sliding_coded w s) = length s /\
+  forall i, (i < length s)%nat ->
+    let win := nth i (sliding_coded w s) [] in
+    length win = w /\
+    forall j, (j < w)%nat -> nth j win 0 = nth (Nat.min (i + j - w / 2) (length s - 1)) s 0.
+Proof.
+  intros Hw Hne. unfold sliding_coded. split; [rewrite map_length, seq_length; reflexivity|].
+  intros i Hi win. unfold win. rewrite map_seq_nth by exact Hi.
+  assert (Hpl : length (edge_pad (w / 2) s) = (length s + 2 * (w / 2))%nat).
+  { unfold edge_pad. rewrite !app_length, !repeat_length. lia. }
+  assert (Hw2 : (w - 1 <= 2 * (w / 2))%nat).
+  { pose proof (Nat.div_mod w 2 ltac:(lia)). pose proof (Nat.mod_upper_bound w 2 ltac:(lia)). lia. }
+  split.
+  - rewrite slice_length by (rewrite Hpl; lia). lia.
+  - intros j Hj. rewrite slice_nth by lia. apply edge_pad_nth; [exact Hne|lia].
+Qed.
